@@ -26,10 +26,12 @@ CHECKS = {
     note="Examples written with absent metadata are unconstrained (documented retroactive labelling). JSON round-trip of metadata values is C20's concern.",
     ref="DESIGN.md §5 C11"),
  "C18": dict(
-    technique="Lean 4 proof (reject_no_trace as a corollary of the conservation invariant of M-FILL; pinned-order witnesses by decide) + differential correspondence with 8 kinds of invalid writes on all formats",
+    technique="Lean 4 proof (filler level: reject_no_trace as a corollary of the conservation invariant of M-FILL; writer level: M-WRITER models of the npz / FlatBuffers / TFRecord writers with 'decoded = accepted examples' for every sequence of calls; pinned-order witnesses by decide) + differential correspondence with 8 kinds of invalid writes on all formats and call-by-call comparison of the real writers' buffers with M-WRITER",
     text="C18_reject_no_trace, C18_counts_exclude_rejected for all prefixes/suffixes; the oracle demands: must-reject kinds raise, valid writes never fail, "
-         "no orphan shard file, every listed shard decodable, read-back equals accepted writes. Writer-level atomicity is validated on the real writers, not proved.",
-    note="numpy can_cast and TensorFlow feature construction are table-modelled externals; the per-format writer buffers are exercised, not modelled in Lean yet.",
+         "no orphan shard file, every listed shard decodable, read-back equals accepted writes. Writer level (SedpackProps/C18Writers.lean): C18_npz_write_atomic, C18_npz_decodes_accepted, "
+         "C18_fb_decodes_accepted, C18_tfrec_decodes_accepted, C18_tfrec_no_orphan_file, witnesses C18_npz_pinned_ragged (D5b) and C18_tfrec_pinned_orphan (D4b); each real writer is driven directly "
+         "with missing keys / wrong shapes / encoder refusals at the first, middle and last attribute and its buffer compared with the model after every call.",
+    note="numpy can_cast and TensorFlow feature construction decide *which* values an encoder refuses (externals; the model takes that verdict as an input bit per value).",
     ref="DESIGN.md §5 C18"),
  "C13": dict(
     technique="Lean 4 proof (16-clause inductive invariant over all reachable states of the queue-operation LTS M-POOL; deadlock-freedom; termination measure) + trace-acceptance correspondence of the real LazyPool under a deterministic scheduler",
